@@ -240,7 +240,11 @@ def simulate(doc, log, clock=None, collect=None):
     kw = {}
     if doc.get("c07", {}).get("x0"):
         kw["x0"] = w.field
-    if doc.get("c07", {}).get("direct"):
+    from felupe.constitution import CompositeMaterial
+
+    # Newton's default fun / jac hand the material only the kinematics (no state-variable entry); a
+    # composite (a & b) needs that entry by contract, so such documents go through the items path
+    if doc.get("c07", {}).get("direct") and not isinstance(getattr(w.umats[0], "inner", w.umats[0]), CompositeMaterial):
         return simulate_direct(doc, log, w, eng)
     with eng:
         job, exc = eng.run_job(**kw)
